@@ -5,6 +5,7 @@ import (
 	"math/rand"
 	"reflect"
 	"time"
+	"unicode/utf8"
 )
 
 var Strs = []string{"", "a", "hello", "<&>", " x", "\x00", "\"q\"", "back\\slash", "é", "日本", "\xff\xfe", "tab\t", "nl\n", "12", "true", "null", "-5", "1.5",
@@ -29,6 +30,7 @@ type ValOpts struct {
 	BadNumber bool // allow ill-formed json.Number
 	BadRaw    bool // allow ill-formed RawMessage
 	NilHeavy  bool
+	RoundTrip bool // prefer values JSON can represent losslessly (valid UTF-8, JSON-natural interface contents)
 	MaxLen    int
 }
 
@@ -95,6 +97,18 @@ func Fill(r *rand.Rand, v reflect.Value, depth int, o ValOpts) {
 				v.SetString(Numbers[r.Intn(len(Numbers))])
 			}
 			return
+		}
+		if o.RoundTrip {
+			for {
+				s := Strs[r.Intn(len(Strs))]
+				if r.Intn(4) == 0 {
+					s += Strs[r.Intn(len(Strs))] + Strs[r.Intn(len(Strs))]
+				}
+				if utf8.ValidString(s) {
+					v.SetString(s)
+					return
+				}
+			}
 		}
 		if r.Intn(6) == 0 {
 			n := r.Intn(24)
@@ -181,7 +195,11 @@ func Fill(r *rand.Rand, v reflect.Value, depth int, o ValOpts) {
 			}
 			return
 		}
-		switch r.Intn(9) {
+		k := r.Intn(9)
+		if o.RoundTrip && k >= 6 {
+			k = r.Intn(6)
+		}
+		switch k {
 		case 0:
 		case 1:
 			v.Set(reflect.ValueOf(F64s[r.Intn(len(F64s))]))
